@@ -413,6 +413,21 @@ fn c01_macro_level_only() {
     c01_macro_level_only_body(kani::any());
 }
 
+// prefix form 3 with labels: the remaining cell of (macro) x (prefix form) x (label form) -- every prefix arm must pass the WHOLE
+// rest of the argument list (name and labels) on, not only the name
+pub fn c01_macro_level_only_labels_body(sel: u8) {
+    kani::assume(sel < 9);
+    let (op, level) = sel_kind_level(sel);
+    let spy = Spy::new(exp("nm", L1, level, HERE));
+    scoped!(&spy, { by_level!(sel; [level:] ["nm", "k1" => "v1"]) });
+    spy.assert_registered(op);
+}
+#[cfg(kani)]
+#[kani::proof]
+fn c01_macro_level_only_labels() {
+    c01_macro_level_only_labels_body(kani::any());
+}
+
 fn unit_of(u: u8) -> Unit {
     match u {
         0 => Unit::Count,
